@@ -308,7 +308,7 @@ Ltac qgoalw :=
        qproc qfeeder qcur qpc qrg qheld qscript qresults qfin qcid fst snd val set_val maxv recur
        buf nw started plog slog blen a2_of length].
 
-Ltac qside := rewrite ?nls_eq, ?nss_eq in *; lia.
+Ltac qside := lia.    (* the context carries nls p = 8 + 2p and nss p = 9 + 2p *)
 
 Ltac qprem HI Wf Eps Imerge Hh4 Ififo Ipipe :=
   cbn [qproc qfeeder]; rewrite <- ?Wf, <- ?Eps;
@@ -321,7 +321,7 @@ Ltac qprem HI Wf Eps Imerge Hh4 Ififo Ipipe :=
     | split; lia
     | exact (q_shape _ _ HI)
     | apply qshape_upds; [exact (q_shape _ _ HI) | reflexivity | reflexivity]
-    | (intros q Hq; rewrite ?nth_upds_other by qside; reflexivity)
+    | (intros q Hq; pose proof (nls_eq q); pose proof (nss_eq q); rewrite ?nth_upds_other by lia; reflexivity)
     | (intros m; rewrite ?zcnt_app, (Imerge m); cbn [zcnt]; lia)
     | match goal with |- QLI _ =>
         unfold QLI; qgoalw; cbn [qli_pc]; rewrite ?nth_updz_same, ?nth_updz_other by qside;
@@ -380,9 +380,9 @@ Proof.
   assert (Grl : qt_rl t <= sumz qt_rl (qthr g)) by (eapply sumz_ge_elem; eauto; intros; apply qt_01).
   assert (Gwl : qt_wl t <= sumz qt_wl (qthr g)) by (eapply sumz_ge_elem; eauto; intros; apply qt_01).
   assert (Gnl : qt_nl (qproc t) t <= sumz (qt_nl (qproc t)) (qthr g)) by (eapply sumz_ge_elem; eauto; intros; apply qt_01).
-  assert (Gb : 0 <= sumz blen (procs g)) by (apply sumz_nonneg; intros; unfold blen; lia).
+  assert (Gb : 0 <= sumz blen (procs g)) by (apply sumz_nonneg; intros; unfold blen; apply Nat2Z.is_nonneg).
   assert (Gbp : blen (nth (qproc t) (procs g) dps) <= sumz blen (procs g)).
-  { apply (sumz_ge_elem _ blen (procs g) (qproc t)); [intros; unfold blen; lia|apply nth_error_nth'; auto]. }
+  { apply (sumz_ge_elem _ blen (procs g) (qproc t)); [intros; unfold blen; apply Nat2Z.is_nonneg|apply nth_error_nth'; auto]. }
   assert (Gt0 : 0 <= sumz qt_tr (qthr g)) by (apply sumz_nonneg; intros; apply qt_01).
   assert (Hnth : nth i (qthr g) dqt = t) by (apply nth_error_nth; auto).
   assert (Hidx : i = (2 * qproc t + (if qfeeder t then 1 else 0))%nat) by (rewrite Wp, Wf; apply div2_odd_idx).
